@@ -354,8 +354,9 @@ type c18WB struct {
 }
 
 type c18Data struct {
-	NoFinalNL   bool `json:"no_final_newline,omitempty"`
-	Overlaps    int  `json:"external_edits_inside_writebacks,omitempty"`
+	FinalKeys   []string `json:"final_keys,omitempty"`
+	NoFinalNL   bool     `json:"no_final_newline,omitempty"`
+	Overlaps    int      `json:"external_edits_inside_writebacks,omitempty"`
 	overlapNext []c18Item
 	Versions    [][]c18Item `json:"-"`
 	VersionStr  []string    `json:"versions"`
@@ -613,8 +614,30 @@ func c18Body(rc *RunCtx) {
 				simrt.Sleep(time.Duration(200+simrt.Choose(9000)) * time.Millisecond)
 				kv := map[string]string{}
 				n := 1 + simrt.Choose(3)
+				if simrt.ChanceF(1, 8) {
+					n = 0 // nothing to write: the file must come out as it went in
+				}
 				for i := 0; i < n; i++ {
 					kv[c18Keys[simrt.Choose(len(c18Keys))]] = c18Value()
+				}
+				if n > 0 && simrt.ChanceF(1, 4) {
+					// the application re-asserts a value it currently sees (which may be stale: an
+					// external edit of the last seconds is not loaded yet); it must reach the file
+					k := c18Keys[simrt.ChooseF(len(c18Keys))]
+					fk := k
+					if d.Prefix != "" && !strings.HasPrefix(fk, d.Prefix) {
+						fk = d.Prefix + fk
+					}
+					if d.Suffix != "" && !strings.HasSuffix(fk, d.Suffix) {
+						fk = fk + d.Suffix
+					}
+					if v := cfg.GetValue(fk); v != "" {
+						for kk := range kv {
+							delete(kv, kk)
+						}
+						kv[k] = v
+						simrt.Probe("writeback_reasserts_seen_value")
+					}
 				}
 				wb := &c18WB{KV: kv, Added: map[string]string{}}
 				b, _ := disk.ReadRaw(d.path)
@@ -762,6 +785,8 @@ func c18Body(rc *RunCtx) {
 			d.Final = append(d.Final, fg)
 		}
 	}
+	// the key listing contains every key of the file
+	d.FinalKeys = cfg.GetKeys()
 	// an absent key falls back to the default
 	for _, g := range c18Getters {
 		def := map[string]string{"GetBoolean": "true", "GetInt": "17", "GetLong": "18", "GetFloat": "-2.25", "GetIntSet": "9", "GetStringArray": "dflt", "GetStringHashSet": "dflt", "GetValueDef": "dv"}[g]
@@ -790,6 +815,22 @@ func c18After(rc *RunCtx, res *simrt.Result) {
 	for _, it := range d.cur {
 		if it.Kind == "kv" {
 			finalVal[it.Key] = it.Value
+		}
+	}
+	if d.FinalKeys != nil {
+		have := map[string]bool{}
+		for _, k := range d.FinalKeys {
+			have[k] = true
+		}
+		var missing []string
+		for k, v := range finalVal {
+			if strings.TrimSpace(v) != "" && !have[k] {
+				missing = append(missing, k)
+			}
+		}
+		sort.Strings(missing)
+		if len(missing) > 0 {
+			viol("convergence:GetKeys", fmt.Sprintf("10 virtual seconds after the last change GetKeys() lacks %v although the file sets them", missing))
 		}
 	}
 	// reads in flight: explained by some value the key has had, or absent
